@@ -8,6 +8,7 @@ import DesyncModel.Tables.Sync
 import DesyncModel.FactDrop
 import DesyncModel.Lemmas
 import DesyncModel.Setters
+import DesyncModel.Inv.JobReach
 
 namespace Desync.C05
 open Desync Gen
@@ -38,5 +39,18 @@ theorem free_step (s s' : State) (a q : Nat) (k : Pc) (act : Act) (o : Obs)
 
 /-- dropping while unwinding never panics again and never runs on a panicked queue -/
 theorem drop_in_panic (e : Bool) : syncNoPanicDecide .panicked e = (.panicked, .refuse) := syncNoPanic_panicked e
+
+/-- **dropping waits for the work scheduled before it**: in every reachable state, once the job that carries the free
+closure has begun, every job accepted earlier on the same queue has ended (instance of C02's `inOrder_reachable`; the free
+closure is an ordinary `sync` job — `frees_through_sync`) -/
+theorem free_waits_for_earlier_work {s : State} (hr : Reachable s) {jf j : Nat} {bf b : Job}
+    (hf : s.jobs[jf]? = some bf) (hj : s.jobs[j]? = some b) (hq : b.q = bf.q) (hlt : j < jf) (hbeg : bf.begun = true) : b.ended = true :=
+  inOrder_reachable hr j jf b bf hj hf hq hlt hbeg
+
+/-- **the value is freed in exclusion of every other operation**: while the job that carries the free closure is open no
+other job of the queue is open (instance of C01's `exclusive_reachable`) -/
+theorem free_is_exclusive {s : State} (hr : Reachable s) {jf j : Nat} {bf b : Job}
+    (hf : s.jobs[jf]? = some bf) (hj : s.jobs[j]? = some b) (hq : b.q = bf.q) (hof : bf.isOpen = true) (ho : b.isOpen = true) : j = jf :=
+  exclusive_reachable hr j jf b bf hj hf hq ho hof
 
 end Desync.C05
